@@ -99,7 +99,8 @@ Theorem C05_legacy_torn_refuted :
     o_wire (model_C05 c) = [mkSeg 0 0 50 10].
 Proof.
   exists EAsyncServer, [[50; 50]], [(0, Cut 10); (0, Whole)]. cbv zeta.
-  repeat split; try exact c05_fr_match; vm_compute; reflexivity.
+  do 3 (split; [vm_compute; reflexivity|]). split; [exact c05_fr_match|].
+  split; vm_compute; reflexivity.
 Qed.
 
 Theorem C05_legacy_blocking_client_refuted :
